@@ -336,7 +336,9 @@ func writeAll(w *os.File, data []byte) error {
 	return nil
 }
 
-func writeLinkEvent(dir string, opts GlobalOptions, eventType, from, to string) error {
+// writeLinkEvents validates every edge against the graph as it would be after the
+// preceding ones, then appends them together: a chain is added whole or not at all.
+func writeLinkEvents(dir string, opts GlobalOptions, eventType string, edges []sequenceEdge) error {
 	lockPath := filepath.Join(dir, "lock")
 	eventsPath := getEventsPath(dir)
 	return withLock(lockPath, syscall.LOCK_EX, func() error {
@@ -344,43 +346,56 @@ func writeLinkEvent(dir string, opts GlobalOptions, eventType, from, to string) 
 		if err != nil {
 			return err
 		}
-		if _, ok := graph.Tombstones[from]; ok {
-			return prunedErr(from)
-		}
-		if _, ok := graph.Tombstones[to]; ok {
-			return prunedErr(to)
-		}
-		fromItem, ok := graph.Tasks[from]
-		if !ok {
-			return fmt.Errorf("unknown id %s", from)
-		}
-		toItem, ok := graph.Tasks[to]
-		if !ok {
-			return fmt.Errorf("unknown id %s", to)
-		}
-		// Validate dependency rules
-		if err := validateDepSelf(from, to); err != nil {
-			return err
-		}
-		if err := validateDepKinds(isEpic(fromItem), isEpic(toItem)); err != nil {
-			return err
-		}
-		// Cycle detection for new links
-		if eventType == "link" {
-			if hasCycle(graph, from, to) {
-				return errors.New("dependency would create a cycle")
+		events := make([]Event, 0, len(edges))
+		for _, edge := range edges {
+			event, err := buildLinkEvent(graph, eventType, edge.FromID, edge.ToID)
+			if err != nil {
+				return err
 			}
+			events = append(events, event)
 		}
-		now := time.Now().UTC()
-		event, err := newEvent(eventType, now, LinkEvent{
-			FromID: from,
-			ToID:   to,
-			Type:   dependsLinkType,
-		})
-		if err != nil {
-			return err
+		return appendEvents(eventsPath, events)
+	})
+}
+
+func buildLinkEvent(graph *Graph, eventType, from, to string) (Event, error) {
+	if _, ok := graph.Tombstones[from]; ok {
+		return Event{}, prunedErr(from)
+	}
+	if _, ok := graph.Tombstones[to]; ok {
+		return Event{}, prunedErr(to)
+	}
+	fromItem, ok := graph.Tasks[from]
+	if !ok {
+		return Event{}, fmt.Errorf("unknown id %s", from)
+	}
+	toItem, ok := graph.Tasks[to]
+	if !ok {
+		return Event{}, fmt.Errorf("unknown id %s", to)
+	}
+	// Validate dependency rules
+	if err := validateDepSelf(from, to); err != nil {
+		return Event{}, err
+	}
+	if err := validateDepKinds(isEpic(fromItem), isEpic(toItem)); err != nil {
+		return Event{}, err
+	}
+	if eventType == "link" {
+		// Cycle detection for new links
+		if hasCycle(graph, from, to) {
+			return Event{}, errors.New("dependency would create a cycle")
 		}
-		return appendEvents(eventsPath, []Event{event})
+		if graph.Deps[from] == nil {
+			graph.Deps[from] = map[string]struct{}{}
+		}
+		graph.Deps[from][to] = struct{}{}
+	} else if graph.Deps[from] != nil {
+		delete(graph.Deps[from], to)
+	}
+	return newEvent(eventType, time.Now().UTC(), LinkEvent{
+		FromID: from,
+		ToID:   to,
+		Type:   dependsLinkType,
 	})
 }
 
